@@ -73,7 +73,7 @@ def run_harness(P, harness, jobs=12, max_paths=200000, seed=0, timeout=None, set
     shutil.rmtree(out_dir, ignore_errors=True)
     summ = dict(paths=0, ok=0, panics=[], violations=[], unmodelled=[], infeasible=0, queries=0,
                 solver_s=0.0, wall_s=round(time.time() - t0, 2), functions=set(), samples=[], budget=False,
-                forks=E.nforks.value, outcomes={})
+                forks=E.nforks.value, outcomes={}, ok_witnesses=[])
     for r in recs:
         s = r.get("status")
         summ["queries"] += r.get("queries", 0) or 0
@@ -89,6 +89,8 @@ def run_harness(P, harness, jobs=12, max_paths=200000, seed=0, timeout=None, set
             key = res if isinstance(res, str) else (res[0] if isinstance(res, (list, tuple)) and res else "ok")
             summ["outcomes"][str(key)] = summ["outcomes"].get(str(key), 0) + 1
             if len(summ["samples"]) < 6: summ["samples"].append(dict(trace=r.get("trace"), result=res))
+            if r.get("model") is not None and len(summ["ok_witnesses"]) < 40:
+                summ["ok_witnesses"].append(dict(what="ok-path:" + str(key), model=r["model"], trace=r.get("trace"), extra=None))
         elif s == "panic": summ["panics"].append(r)
         elif s == "violation": summ["violations"].append(r)
         elif s == "unmodelled": summ["unmodelled"].append(r)
